@@ -155,6 +155,10 @@ pub fn create_raw_dict_from_source<R: io::Read, W: io::Write>(
     );
     vprintln!("create_dict: creating {sample_size} byte sample of collection");
     let collection_sample = create_sample(&mut buffered_source, sample_size);
+    // An empty source has nothing to build a dictionary from
+    if collection_sample.is_empty() {
+        return;
+    }
 
     // A collection of segments to be used in the final dictionary.
     //
